@@ -5,19 +5,28 @@
 (*   Evaluate(i)    the receiver figures are recomputed for mode i (update_snr: transmitter OSNR and every     *)
 (*                  crossed add/drop OSNR are added to the LINE figure, never to the previous result), the     *)
 (*                  penalties are interpolated, and the worst channel is compared with OSNR + margin           *)
-(*   Reverse        the same for the opposite direction when the request is bidirectional                      *)
+(*   Reverse        the same for the opposite direction when the request is bidirectional: on the reverse of   *)
+(*                  the request's OWN route (the reverse figures are a function of the route)                  *)
+(*   NextRequest    the next request of the batch (same ends, transceiver and mode - another route) starts on  *)
+(*                  fresh copies; only the history of the batch (revOf) is carried over                        *)
 (* The machine explores the largest unexplored fitting mode first.  What the property demands of the outcome  *)
 (* is stated separately (FeasibilityOps.AutoClauses / FixedClauses) and checked as invariants, so the order of *)
 (* exploration is the machine's business and not part of the property.                                        *)
-EXTENDS FeasibilityOps
+EXTENDS FeasibilityOps, TLC
 
 CONSTANTS Libs,        \* the transceiver libraries considered: each a sequence of mode records
                        \*   [br, rate, fits, worst, thr, tx]   (tx: reciprocal transmitter OSNR)
-          Adds,        \* reciprocal OSNR of the add/drop stages crossed by the path, one entry per stage
+          Scenarios(_), \* library -> set of [stages, routes]: the add/drop stages the path crosses (configuration, see
+                       \*   FeasibilityOps.StageInv) and the routes of the requests of the batch, one per request
           LineInv,     \* [baud rate -> reciprocal line GSNR delivered by a pristine path for that group]
           RevMargins   \* margins (worst - thr, micro-dB) the reverse direction may show
 
 VARIABLES lib,        \* the library of the request's transceiver
+          stages,     \* configuration of the add/drop stages crossed (profiles as listed, selected profile id or NONE)
+          routes,     \* the batch: route of request 1, route of request 2, ... (same ends, transceiver, mode)
+          k,          \* index of the request of the batch being served
+          revOf,      \* HISTORY of the batch: [route -> margin shown by its reverse direction] for the reverse
+                      \*   directions propagated so far; a pristine propagation is a function of the route
           req,        \* [auto |-> BOOLEAN, mode |-> index (fixed mode), bidir |-> BOOLEAN]
           pc,         \* "start", "explore", "reverse", "done"
           explored,   \* set of mode indices already evaluated
@@ -28,7 +37,9 @@ VARIABLES lib,        \* the library of the request's transceiver
           nUpdates,   \* HISTORY: how many times the receiver figures have been recomputed on this path
           rev,        \* margin observed on the reverse direction (NotRun: not propagated; -Inf: infinite penalty)
           out         \* [sel, block]
-vars == <<lib, req, pc, explored, curBr, line, rx, last, nUpdates, rev, out>>
+vars == <<lib, stages, routes, k, revOf, req, pc, explored, curBr, line, rx, last, nUpdates, rev, out>>
+Adds == AddsOf(stages)
+route == routes[k]
 
 -----------------------------------------------------------------------------
 NotRun == Inf
@@ -39,6 +50,8 @@ Requests(l) == {[auto |-> TRUE, mode |-> 0, bidir |-> b] : b \in BOOLEAN}
 
 Init == /\ lib \in Libs
         /\ req \in Requests(lib)
+        /\ \E sc \in Scenarios(lib) : stages = sc.stages /\ routes = sc.routes
+        /\ k = 1 /\ revOf = <<>>
         /\ pc = "start" /\ explored = {} /\ curBr = 0 /\ line = 0 /\ rx = 0 /\ last = 0 /\ nUpdates = 0
         /\ rev = NotRun
         /\ out = [sel |-> 0, block |-> NoBlock]
@@ -54,14 +67,14 @@ Start == /\ pc = "start"
          /\ IF req.auto /\ Fitting(lib) = {}
             THEN /\ out' = [sel |-> 0, block |-> NoFit] /\ pc' = "done"
             ELSE /\ out' = out /\ pc' = "explore"
-         /\ UNCHANGED <<lib, req, explored, curBr, line, rx, last, nUpdates, rev>>
+         /\ UNCHANGED <<lib, stages, routes, k, revOf, req, explored, curBr, line, rx, last, nUpdates, rev>>
 
 Propagate(b) == /\ pc = "explore" /\ b # curBr
                 /\ \E i \in (IF req.auto THEN Next1 ELSE {req.mode} \ explored) : lib[i].br = b
                 /\ curBr' = b
                 /\ line' = LineInv[b]          \* pristine: depends on the group only, not on what was explored before
                 /\ rx' = LineInv[b] /\ last' = 0
-                /\ UNCHANGED <<lib, req, pc, explored, nUpdates, rev, out>>
+                /\ UNCHANGED <<lib, stages, routes, k, revOf, req, pc, explored, nUpdates, rev, out>>
 
 Update(i) == /\ rx' = Composed(line, lib[i].tx, Adds)      \* from the LINE figure: nothing accumulates
              /\ last' = i
@@ -80,18 +93,29 @@ Evaluate(i) == /\ pc = "explore" /\ lib[i].br = curBr
                /\ Update(i)
                /\ explored' = explored \cup {i}
                /\ \E ok \in Passes(lib[i]) : AfterForward(i, ok)
-               /\ UNCHANGED <<lib, req, curBr, line, rev>>
+               /\ UNCHANGED <<lib, stages, routes, k, revOf, req, curBr, line, rev>>
 
+\* the reverse direction of THIS request's route: whatever the batch propagated before, the figures are those of a
+\* pristine propagation of that route (the same as before if the batch already went that way, free otherwise)
 Reverse == /\ pc = "reverse"
-           /\ \E d \in RevMargins :
+           /\ \E d \in (IF route \in DOMAIN revOf THEN {revOf[route]} ELSE RevMargins) :
                 LET m == WithMargin(lib[out.sel], d)
                 IN /\ rev' = d
+                   /\ revOf' = IF route \in DOMAIN revOf THEN revOf ELSE revOf @@ (route :> d)
                    /\ \E ok \in Passes(m) :
                         out' = IF ok THEN out ELSE [out EXCEPT !.block = NotFeas]
            /\ pc' = "done"
-           /\ UNCHANGED <<lib, req, explored, curBr, line, rx, last, nUpdates>>
+           /\ UNCHANGED <<lib, stages, routes, k, req, explored, curBr, line, rx, last, nUpdates>>
+
+NextRequest == /\ pc = "done" /\ k < Len(routes)
+               /\ k' = k + 1
+               /\ pc' = "start" /\ explored' = {} /\ curBr' = 0 /\ line' = 0 /\ rx' = 0 /\ last' = 0 /\ nUpdates' = 0
+               /\ rev' = NotRun
+               /\ out' = [sel |-> 0, block |-> NoBlock]
+               /\ UNCHANGED <<lib, stages, routes, revOf, req>>
 
 Next == Start \/ (\E b \in DOMAIN LineInv : Propagate(b)) \/ (\E i \in DOMAIN lib : Evaluate(i)) \/ Reverse
+        \/ NextRequest
 Spec == Init /\ [][Next]_vars
 
 -----------------------------------------------------------------------------
@@ -118,14 +142,17 @@ FixedModeVerdict ==
 \* a mode with an impairment outside its penalty table is never accepted
 InfPenaltyAlwaysBlocks == (Done /\ out.block = NoBlock /\ out.sel # 0) => lib[out.sel].worst > -Inf
 
-\* the receiver figure is line + tx + each add/drop once, however many updates this receiver has seen
-CompositionHolds == last # 0 => rx = line + lib[last].tx + SumSeq(Adds)
+\* the receiver figure is line + tx + each add/drop once, however many updates this receiver has seen; what a stage
+\* contributes is the profile the configuration selects for it (id 0 included), else the first listed of its kind
+CompositionHolds == last # 0 => rx = line + lib[last].tx + SumSeq(AddsOf(stages))
+\* the reverse figures a request is judged on are those of its own route, whatever the batch did before
+ReverseOnOwnRoute == RevRan => (route \in DOMAIN revOf /\ rev = revOf[route])
 LineIsPristine   == curBr # 0 => line = LineInv[curBr]
 
 \* the rule itself: always some acceptable outcome; unique up to ties / unjudged modes; blocked <=> no feasible mode
 \* (they speak about the library alone, so it is enough to evaluate them once per library: in the initial state of
 \* its unidirectional automatic request)
-OncePerLib == pc = "start" /\ req.auto /\ ~req.bidir
+OncePerLib == pc = "start" /\ req.auto /\ ~req.bidir /\ k = 1 /\ Len(routes) = 1 /\ (\A j \in 1..Len(stages) : stages[j].sel = NONE /\ stages[j].profiles = <<>>)
 NoUnjudged(l) == \A i \in Fitting(l) : ~Unjudged(l[i])
 RuleWellDefined == OncePerLib => AutoAcceptableSet(lib) # {}
 SelectionUniqueUpToTies ==
@@ -141,4 +168,6 @@ TypeOK == /\ pc \in {"start", "explore", "reverse", "done"}
           /\ explored \subseteq DOMAIN lib
           /\ out.block \in {NoBlock, NoFit, NoMode, NotFeas}
           /\ nUpdates <= Len(lib)
+          /\ k \in 1..Len(routes)
+          /\ \A j \in 1..Len(stages) : StageOK(stages[j])
 ==============================================================================
